@@ -163,6 +163,17 @@ theorem table_only_if (f : Feat) (c : Cmd) (ct : CType) (o : Opts) (lk : LinkCla
 
 example : runParsed ⟨true, false⟩ .kh .Q ⟨"H", true, true, false, false⟩ .ok = .table (.polyH .Q) true := by decide
 
+/-- A link argument that does not load, or on which the library fails (malformed PD code → panic, caught by the
+guard), is an error for every option combination — never a table. -/
+theorem bad_link_is_error (f : Feat) (c : Cmd) (ct : CType) (o : Opts) (lk : LinkClass) (h : lk ≠ .ok) :
+    ∃ k, runParsed f c ct o lk = .error k := by
+  cases hr : runParsed f c ct o lk with
+  | error k => exact ⟨k, rfl⟩
+  | table r b => exact absurd (table_only_if f c ct o lk r b hr).2.2.2.1 h
+
+example : runParsed ⟨true, false⟩ .kh .Z ⟨"0", false, false, false, false⟩ .panics = .error .panic := by decide
+example : runParsed ⟨true, false⟩ .ckh .Q ⟨"H,T", false, false, false, false⟩ .invalid = .error .link := by decide
+
 /-- The bigraded switch of `kh`: a two-dimensional table is printed iff `h = t = 0` or the `-c` text is literally
 `H` or `0,T`; otherwise the one-row sequence. -/
 theorem kh_bigraded_iff (f : Feat) (ct : CType) (o : Opts) (lk : LinkClass) (r : Ring) (b : Bool) (hh tt : Val)
